@@ -91,7 +91,7 @@ GROUP = dict(
              text='The same including the replay comparison for visitors that want exactly one of LocalVariableTable and LocalVariableTypeTable: ClassFile::accept delivers what reading delivers.',
              bound='the 14 masks of the family with code interest and local_variable_table != local_variable_type_table x the same 66 stream / decline configurations + 8 = 932 cases'),
         dict(name='no_panic_on_damaged_files', props=['C16'], tier='quick', timeout=900,
-             text='read_class returns Ok or Err on every damaged file, without panic and without hanging (20 s watchdog), and write_class does not panic on any tree read_class returned.',
+             text='read_class returns Ok or Err on every damaged file, without panic, without hanging (20 s watchdog) and without asking the allocator for more than 64 MiB + 64 bytes per input byte in one request (a counting global allocator records the largest request per input), and write_class does not panic on any tree read_class returned.',
              bound='13 generated class files (31 .. 2685 bytes, 7633 bytes in total: six universe-A models covering all class / member / code attributes, switches, frames, all branch forms, in different '
                    'encodings, the minimal class, two universe-B files); every proper prefix (7633 truncations); at every offset every different value out of {0x00, 0x01, 0x7f, 0x80, 0xff, b+1, b-1}; '
                    'at every offset the patterns ffff, 0000, ffffffff, 7fffffff, 80000000 written over 2 / 4 bytes; 89114 cases; plus one well-formed class whose only method has code_length 65535 and a label at every offset 0..=65535 (65536 labels); plus 5 of the files with every Utf8 constant that starts with p/B rewritten to start with ED A0 80 (the unpaired surrogate U+D800: a name that is no UTF-8), damaged in the same ways'),
